@@ -15,12 +15,12 @@ CHECKS = {
     "C18": ("SeqTrace contract (AboveMaxNeverSucceeds, StackCapacityMovesExactly, pool counter guards)", "9 C18"),
     "C08": ("SeqTrace contract (TryDeallocFalseForForeign, FalseChangesNothing, TryDeallocTrueForOwn: own, sibling and block-adjacent foreign pointers) and ForwardTrace contract (ReleaseSameLeaf, ReleaseSameShape, ReleasedToServingPool in fallback nests)", "9 C08"),
     "C09": ("ForwardTrace contract (OneLeafRequestPerRequest, LeafBytesAtLeast, LeafAlignAtLeast, ReleaseSameLeaf, ReleaseSameShape, ReleaseOnce, TrackerSeesEachSuccessOnce) over a catalogue of wrapper compositions on instrumented leaves", "9 C09"),
+    "C13": ("LockTrace contract (EnterHoldsMutex, AtMostOneInside, MutexIsExclusive, UnlockByHolder, StatelessTakesNoLock, DisjointUnderConcurrency, StatelessNetExact) on single-threaded passes over every forwarding member and on multi-threaded stress; Storage design model for the interleavings", "9 C13"),
 }
 
 NOT_YET = {
     "C10": "check under construction in this session (containers driver + Propagate model)",
     "C11": "check under construction in this session (joint driver + JointContract)",
-    "C13": "check under construction in this session (threads driver + LockContract/Storage model)",
     "C14": "check under construction in this session (temp driver, scheduling hook, TempStackList model)",
     "C16": "check under construction in this session (bad-call mode + ReportContract)",
     "C17": "check under construction in this session (lowlevel driver + FenceContract)",
